@@ -40,6 +40,34 @@ pub fn force_prove() -> bool {
     FORCE_PROVE.with(|f| f.get())
 }
 
+std::thread_local! {
+    static HOST_VIEW: Cell<Option<(usize, [u8; 32])>> = const { Cell::new(None) };
+}
+
+/// Adversarial witness generation: while set on the calling thread, the
+/// truncation and logic gadgets read the bits of witness `index` from the
+/// given little-endian 256-bit integer (e.g. `value + r`) instead of from
+/// the canonical bytes of its value. Layout and constraints are unaffected.
+pub fn set_host_view(view: Option<(usize, [u8; 32])>) {
+    HOST_VIEW.with(|f| f.set(view));
+}
+
+pub(crate) fn host_view_bytes(index: usize) -> Option<[u8; 32]> {
+    HOST_VIEW.with(|f| f.get()).and_then(|(i, b)| (i == index).then_some(b))
+}
+
+pub(crate) fn host_view_bits(index: usize) -> Option<[u8; 256]> {
+    host_view_bytes(index).map(|bytes| {
+        let mut res = [0u8; 256];
+        for (byte, bits) in bytes.iter().zip(res.chunks_mut(8)) {
+            bits.iter_mut()
+                .enumerate()
+                .for_each(|(i, bit)| *bit = (byte >> i) & 1)
+        }
+        res
+    })
+}
+
 fn domain(size: usize) -> Result<EvaluationDomain, Error> {
     EvaluationDomain::new(size)
 }
